@@ -18,6 +18,24 @@ inline Verdict violation(std::string tag, std::string detail, std::map<std::stri
   return v;
 }
 
+// the plan op that issued statement `id` (ids are thread * 10^6 + op index)
+inline Op const* op_of(Plan const& p, int64_t id)
+{
+  size_t t = static_cast<size_t>(id / 1000000), i = static_cast<size_t>(id % 1000000);
+  if (t < p.threads.size() && i < p.threads[t].size())
+  {
+    return &p.threads[t][i];
+  }
+  return nullptr;
+}
+
+// encoded size of a generic site-0 statement: 8 (timestamp) + 24 (metadata, logger, decoder) + 8 (id) + 4 + payload
+inline size_t encoded_size_of(Plan const& p, int64_t id)
+{
+  Op const* op = op_of(p, id);
+  return op ? 44 + static_cast<size_t>(op->v[4]) : 0;
+}
+
 struct DeliveryRules
 {
   // must statement `is` be written to sink `sink` ? (1 yes, 0 no, -1 either is acceptable)
